@@ -11,10 +11,10 @@ CONSTANTS
   MaxParts = 1
   MaxOps = 1
   MaxRetry = 1
-  ContentSel = {1, 4, 6, 7, 9}
-  ProfileSel = {1, 3}
+  ContentSel = {1, 6, 9}
+  ProfileSel = {1, 3, 7}
   UseJson = TRUE
-  BoundarySel = {1, 2}
+  BoundarySel = {2, 4}
   PreSel = {1}
   EpiSel = {1}
   FinSel = {TRUE, FALSE}
@@ -24,5 +24,6 @@ CONSTANTS
   EditVals = {}
   Depth = 8
 INVARIANT ParseOfEncodeIsForm
+INVARIANT QuotedRoundTrip
 INVARIANT LimitsExactAtThreshold
 INVARIANT Emit
